@@ -124,9 +124,8 @@ def asLeaf (isZero : V → Bool) (l : Leaf V) (m : Mesh) (nv : Nat) : M (NDA V) 
   | .func f => funcLoop f nv ((indicesCode m.n).zip m.iter) (NDA.const (m.n ++ [nv]) default)
   | .field src =>
     if !src.mesh.region.containsReg m.region then .error .value
+    else if src.nvdim ≠ nv then .error .value
     else if m.region.dims ≠ src.mesh.region.dims then .error .key
-    else if src.nvdim = 1 ∧ nv ≠ 1 then
-      .ok ⟨m.n, fun i => src.data.get (nearestIdx src.mesh m i ++ [0])⟩
     else .ok ⟨m.n ++ [src.nvdim],
               fun j => src.data.get (nearestIdx src.mesh m j.dropLast ++ [j.getLastD 0])⟩
 
@@ -150,7 +149,8 @@ def boxShape (lo hi : List Nat) : List Nat := tab lo.length fun a => hi.getD a 0
 /-- index relative to the start of the slices (the component axis is not shifted) -/
 def localIdx (lo j : List Nat) : List Nat := tab j.length fun a => j.getD a 0 - lo.getD a 0
 
-/-- `array[slices] = sub` on the sentinel array (`none` = NaN) -/
+/-- `array[slices] = sub; unset[slices] = False`.  The pair (array, Boolean mask `unset` of the
+cells still waiting for the default) is modelled as one array of `Option V`: `none` = unset. -/
 def paint (a : NDA (Option V)) (lo hi : List Nat) (nv : Nat) (sub : NDA V) : M (NDA (Option V)) :=
   match bcast (boxShape lo hi ++ [nv]) sub with
   | .error e => .error e
@@ -181,17 +181,16 @@ def dictLoop (isZero : V → Bool) (items : List (String × Leaf V)) (m : Mesh) 
             | .error e => .error e
             | .ok a' => dictLoop isZero items m nv rest a'
 
-/-- initial array: the non-callable default, else the NaN sentinel everywhere.
-`junk = none`: the dtype can hold NaN (float, complex).  `junk = some g`: it cannot (int, bool) and
-`np.full(…, np.nan, dtype)` stores the cast value `g`, which `np.isnan` never reports. -/
-def fillOf (junk : Option V) (dflt : Option (Dflt V)) (m : Mesh) (nv : Nat) : M (NDA (Option V)) :=
+/-- initial state: the non-callable default everywhere with `unset` all `False`, else every cell
+unset (independent of the dtype: the mask is Boolean) -/
+def fillOf (dflt : Option (Dflt V)) (m : Mesh) (nv : Nat) : M (NDA (Option V)) :=
   match dflt with
   | some (.val a) =>
     match bcast (m.n ++ [nv]) a with
     | .error e => .error e
     | .ok b => .ok (b.map some)
   | some .bad => .error .value
-  | _ => .ok (NDA.const (m.n ++ [nv]) junk)
+  | _ => .ok (NDA.const (m.n ++ [nv]) none)
 
 /-- `subval(mesh.index2point(idx))` -/
 def dfltCell (d : Dflt V) (m : Mesh) (i : List Nat) : M (List V) :=
@@ -206,7 +205,7 @@ def dfltCell (d : Dflt V) (m : Mesh) (i : List Nat) : M (List V) :=
 def setCellO (a : NDA (Option V)) (idx : List Nat) (vs : List V) : NDA (Option V) :=
   ⟨a.shape, fun j => if j.dropLast = idx then some (vs.getD (j.getLastD 0) default) else a.get j⟩
 
-/-- `for idx in np.argwhere(np.isnan(array[..., 0])): array[tuple(idx)] = …reshape(nvdim)` -/
+/-- `for idx in np.argwhere(unset): array[tuple(idx)] = …reshape(nvdim)` -/
 def dfltLoop (d : Dflt V) (m : Mesh) (nv : Nat) : List (List Nat) → NDA (Option V) → M (NDA (Option V))
   | [], a => .ok a
   | i :: rest, a =>
@@ -214,21 +213,21 @@ def dfltLoop (d : Dflt V) (m : Mesh) (nv : Nat) : List (List Nat) → NDA (Optio
     | .error e => .error e
     | .ok vs => if vs.length ≠ nv then .error .value else dfltLoop d m nv rest (setCellO a i vs)
 
-/-- `np.any(np.isnan(array))` -/
+/-- `np.any(unset)` -/
 def anyNone (a : NDA (Option V)) : Bool := (indicesC a.shape).any fun j => (a.get j).isNone
 
-/-- `np.argwhere(np.isnan(array[..., 0]))` (C order) -/
+/-- `np.argwhere(unset)` (C order) -/
 def nanCells (m : Mesh) (a : NDA (Option V)) : List (List Nat) :=
   (indicesC m.n).filter fun i => (a.get (i ++ [0])).isNone
 
 def unwrap (a : NDA (Option V)) : NDA V := a.map fun o => o.getD default
 
 /-- `Field._as_array(val, mesh, nvdim, dtype)` -/
-def asArray (isZero : V → Bool) (junk : Option V) (s : Spec V) (m : Mesh) (nv : Nat) : M (NDA V) :=
+def asArray (isZero : V → Bool) (s : Spec V) (m : Mesh) (nv : Nat) : M (NDA V) :=
   match s with
   | .leaf l => asLeaf isZero l m nv
   | .dict items dflt =>
-    match fillOf junk dflt m nv with
+    match fillOf dflt m nv with
     | .error e => .error e
     | .ok a0 =>
       match dictLoop isZero items m nv m.subs.reverse a0 with
@@ -245,15 +244,15 @@ def asArray (isZero : V → Bool) (junk : Option V) (s : Spec V) (m : Mesh) (nv 
 
 /-- `Field.update_field_values(value)`: `self.array = self._as_array(value, …)`, and the
 `array` setter converts once more (`self._array = self._as_array(val, …)`) -/
-def updateValues (isZero : V → Bool) (junk : Option V) (s : Spec V) (m : Mesh) (nv : Nat) : M (NDA V) :=
-  match asArray isZero junk s m nv with
+def updateValues (isZero : V → Bool) (s : Spec V) (m : Mesh) (nv : Nat) : M (NDA V) :=
+  match asArray isZero s m nv with
   | .error e => .error e
   | .ok a => asLeaf isZero (.arr a) m nv
 
 /-- `Field(mesh, nvdim=…, value=…, vdims=…)` as far as the values are concerned -/
-def VF.mk? (isZero : V → Bool) (junk : Option V) (m : Mesh) (nv : Nat) (s : Spec V)
+def VF.mk? (isZero : V → Bool) (m : Mesh) (nv : Nat) (s : Spec V)
     (vdims : Option (List String)) : M (VF V) :=
-  match updateValues isZero junk s m nv with
+  match updateValues isZero s m nv with
   | .error e => .error e
   | .ok a => .ok ⟨m, nv, a, vdims⟩
 
@@ -264,8 +263,8 @@ def VF.setArray (isZero : V → Bool) (f : VF V) (l : Leaf V) : M (VF V) :=
   | .ok a => .ok { f with data := a }
 
 /-- `field.update_field_values(val)` on an existing field -/
-def VF.update (isZero : V → Bool) (junk : Option V) (f : VF V) (s : Spec V) : M (VF V) :=
-  match updateValues isZero junk s f.mesh f.nvdim with
+def VF.update (isZero : V → Bool) (f : VF V) (s : Spec V) : M (VF V) :=
+  match updateValues isZero s f.mesh f.nvdim with
   | .error e => .error e
   | .ok a => .ok { f with data := a }
 
@@ -285,7 +284,7 @@ def VF.comp (isZero : V → Bool) (f : VF V) (label : String) : M (VF V) :=
     match indexOf? vs label with
     | none => .error .value
     | some k =>
-      VF.mk? isZero none f.mesh 1
+      VF.mk? isZero f.mesh 1
         (.leaf (.arr ⟨f.mesh.n ++ [1], fun j => f.data.get (j.dropLast ++ [k])⟩)) none
 
 /-- `Field.__iter__`: `for point in self.mesh: yield self(point)` -/
@@ -326,17 +325,14 @@ structure LineOut (V : Type) where
   /-- squared distance of every point from the first one -/
   r2 : List Rat
 
-/-- `Field.line(p1, p2, n)` + `Line.__init__`.  On a 1-d mesh `Mesh.line` yields bare numbers
-(`array2tuple` unwraps arrays of size 1), the point table is 1-d and `points[0, :]` in
-`Line.__init__` raises `IndexError` (finding D43). -/
+/-- `Field.line(p1, p2, n)` + `Line.__init__` (the point table has one column per spatial
+dimension, also on 1-d meshes) -/
 def VF.line (f : VF V) (p1 p2 : List Rat) (n : Nat) : M (LineOut V) :=
   match meshLine f.mesh p1 p2 n with
   | .error e => .error e
   | .ok pts =>
     match seqM (pts.map f.call) with
     | .error e => .error e
-    | .ok vals =>
-      if f.mesh.ndim = 1 then .error .index
-      else .ok ⟨pts, vals, pts.map fun p => sqDist p (pts.getD 0 [])⟩
+    | .ok vals => .ok ⟨pts, vals, pts.map fun p => sqDist p (pts.getD 0 [])⟩
 
 end DFV.C02
